@@ -124,13 +124,16 @@ Definition add_node (s : state) : state :=
 Definition is_pow2 (n : Z) : bool := (0 <? n) && (Z.land n (n - 1) =? 0).
 Definition is_pow2_up_to (n m : Z) : bool := is_pow2 n && (n <=? m).
 
-(* add a pending fixup to label `id` (must be unbound) *)
+(* CodeHolder::new_fixup for label `id`: chained to the label while it is unbound; a label that is already bound (to
+   another section than the referencing one) gets a holder-level cross-section fixup — only the unresolved count grows *)
 Definition add_fixup (s : state) (id : Z) (linked : bool) : state :=
   match nthZ (st_labels s) id with
   | Some (LUnbound p) =>
       mkState (st_sizes s) (st_cur s) (updZ (st_labels s) id (LUnbound (mkFix (st_cur s) linked :: p)))
               (st_fixups s + 1) (st_relocs s) (st_addrs s) (st_nodes s) (st_one s)
-  | _ => s
+  | Some (LBound _ _) =>
+      mkState (st_sizes s) (st_cur s) (st_labels s) (st_fixups s + 1) (st_relocs s) (st_addrs s) (st_nodes s) (st_one s)
+  | None => s
   end.
 
 Definition add_relocs (s : state) (n : Z) : state :=
@@ -165,7 +168,9 @@ Inductive cmd :=
 | CEmbedLabel (id size : Z)
 | CSection (id : Z) (foreign : bool)  (* foreign: a Section object of another CodeHolder carrying that id *)
 | CNewSection (align namelen : Z)
-| CEmbedLabelDelta (id base size : Z).
+| CEmbedLabelDelta (id base size : Z)
+| CBindAtomic (id : Z) (patchfail : Z).  (* bind on a tree where bind_label checks the pending displacements BEFORE binding
+                                           (fixes/C14-bind-atomic.patch): a displacement that does not fit refuses the bind *)
 
 (* ---------------------------------------------------------------- the emit transaction *)
 (* success path of `_emit`: side effects, then reset_state(), then writer.done() *)
@@ -220,6 +225,17 @@ Definition bind_assembler (h : handler) (s : state) (id patchfail : Z) : state *
       let s' := mkState (st_sizes s) (st_cur s) (updZ (st_labels s) id (LBound (st_cur s) (cur_size s)))
                         (st_fixups s - (count_resolvable (st_cur s) p - pf)) (st_relocs s) (st_addrs s) (st_nodes s) (st_one s) in
       (clear_comment s', if 0 <? pf then report h kInvalidDisplacement else ok_out)
+  end.
+
+(* the same call when CodeHolder::bind_label validates every same-section fixup before it touches the label *)
+Definition bind_assembler_atomic (h : handler) (s : state) (id patchfail : Z) : state * outcome :=
+  match nthZ (st_labels s) id with
+  | None => (clear_comment s, report h kInvalidLabel)
+  | Some (LBound _ _) => (clear_comment s, report h kLabelAlreadyBound)
+  | Some (LUnbound p) =>
+      if 0 <? Z.min patchfail (count_resolvable (st_cur s) p) then (clear_comment s, report h kInvalidDisplacement)
+      else (clear_comment (mkState (st_sizes s) (st_cur s) (updZ (st_labels s) id (LBound (st_cur s) (cur_size s)))
+                                   (st_fixups s - count_resolvable (st_cur s) p) (st_relocs s) (st_addrs s) (st_nodes s) (st_one s)), ok_out)
   end.
 
 (* x86::Assembler::align / a64::Assembler::align (argument checks are the same; a64 code alignment needs offset%4=0) *)
@@ -317,6 +333,7 @@ Definition step (fl : flavour) (a : arch) (h : handler) (s : state) (c : cmd) : 
   | CNewSection al nl => new_section s al nl
   | CEmbedLabelDelta id ba sz =>
       match fl with FAssembler => embed_label_delta_assembler a h s id ba sz | _ => embed_label_builder h s sz end
+  | CBindAtomic id pf => match fl with FAssembler => bind_assembler_atomic h s id pf | _ => bind_builder h s id end
   end.
 
 (* a failed call: a non-zero return value or an exception *)
@@ -340,6 +357,7 @@ Definition residual (fl : flavour) (c : cmd) (o : outcome) : list cmd :=
                  | FAssembler => if o_ret o =? kInvalidDisplacement then [c] else [CResetComment]
                  | _ => []
                  end
+  | CBindAtomic _ _ => match fl with FAssembler => [CResetComment] | _ => [] end
   | _ => []
   end.
 
